@@ -302,11 +302,34 @@ func cmdCheck(args []string) {
 		}
 		violationLines = append(violationLines, line)
 	}
+	var lost []string
 	for _, p := range pinned {
 		if !producedBase[p] {
 			undecided++
+			lost = append(lost, p)
 			undecidedLines = append(undecidedLines, fmt.Sprintf("UNDECIDED property=%s pinned obligation %s was not generated", *prop, p))
 		}
+	}
+	if undecided > 0 {
+		// Obligations that were discharged on the pinned tree and can no longer even be generated from the current
+		// source (a contract anchor was removed or renamed, or the code left the verified subset), a vacuity probe
+		// that no longer finds the function end reachable, or a writer of a guarded field that left the contracts:
+		// the property is no longer established. Reported as a violation without a failing input; the file
+		// carries the reasons.
+		violations++
+		dir := filepath.Join(verifRoot, "out", "replay", *prop)
+		os.MkdirAll(dir, 0o755)
+		path := filepath.Join(dir, "lost_obligations.json")
+		data, _ := json.MarshalIndent(map[string]any{
+			"property":              *prop,
+			"obligation":            "pinned obligations no longer derivable from the source",
+			"lost_obligations":      lost,
+			"verifier_output":       undecidedLines,
+			"replayed_on_real_code": false,
+			"note":                  "each listed obligation was discharged on the tree the list was pinned on (obligations/" + *prop + ".txt); on this tree the generator could not produce it, for the reasons in verifier_output",
+		}, "", " ")
+		os.WriteFile(path, data, 0o644)
+		violationLines = append(violationLines, fmt.Sprintf("VIOLATION property=%s replay=%s no-failing-input-found", *prop, path))
 	}
 	for _, e := range externs {
 		trusted[e] = true
